@@ -298,6 +298,9 @@ func RunJob(prog *ssa.Program, job *Job, nw int, twin bool, solverBin []string) 
 			}
 			workers[i] = w
 			w.e.twin = twin
+			if coverOn {
+				w.e.cover = map[*ssa.BasicBlock]struct{}{}
+			}
 			w.e.publish = func(alt []int8) {
 				mu.Lock()
 				pending = append(pending, alt)
@@ -382,6 +385,13 @@ func RunJob(prog *ssa.Program, job *Job, nw int, twin bool, solverBin []string) 
 		}
 		for k := range w.e.fnsRun {
 			agg.Fns[k] = true
+		}
+		if coverOn {
+			coverMu.Lock()
+			for b := range w.e.cover {
+				coverHit[b] = true
+			}
+			coverMu.Unlock()
 		}
 		agg.Queries += w.solver.Queries
 		agg.Sat += w.solver.Sat
